@@ -10,6 +10,7 @@ from . import facts
 from .common import Report, finish
 
 PROPS = {
+    "C06": "analysis.props.p_c06",
     "C12": "analysis.props.p_c12",
     "C15": "analysis.props.p_c15",
 }
